@@ -149,6 +149,7 @@ func checkC17(c *Ctx, p *Prog, r *Result) {
 
 	c17ReadCounts(p, r, pkg)
 	c17ContentLength(p, r, pkg)
+	c17AnnounceTable(p, r, pkg)
 
 	r.rule("C17.rename-guarded", "every rename of a received temp file requires digest-ok, and length-ok in modules that count received bytes")
 	r.floor("C17.rename-guarded", 3)
@@ -338,5 +339,95 @@ func c17ContentLength(p *Prog, r *Result, pkg string) {
 	if total == 0 {
 		// nothing uses the field today: keep the rule armed with an explicit note
 		r.table(p, rule, "no use of http.Response.ContentLength as a size in package fsim", "-", true, "no load of the field in the package (rule armed for future uses)")
+	}
+}
+
+// c17AnnounceTable: a sender that announces a transfer by looping over a
+// constant table of message names which contains the digest message must write
+// the table's element on every way round the loop (leaving the loop otherwise
+// only by returning an error): the receiver verifies the digest only if one was
+// announced, so a skipped announcement silently downgrades the transfer to a
+// length check.
+func c17AnnounceTable(p *Prog, r *Result, pkg string) {
+	rule := "C17.announce-table-complete"
+	r.rule(rule, "in every loop over a constant table of message names that contains the digest message (sha-384), the write of the current element dominates every back edge of the loop: no announcement is skipped")
+	r.floor(rule, 1)
+	n := 0
+	for _, fn := range p.Funcs {
+		if funcPkgPath(fn) != pkg {
+			continue
+		}
+		for _, b := range fn.Blocks {
+			for _, in := range b.Instrs {
+				call, ok := in.(ssa.CallInstruction)
+				if !ok {
+					continue
+				}
+				if nm := p.calleeOf(call.Common()).Name; nm != "fdo/serviceinfo.Producer.WriteChunk" {
+					continue
+				}
+				// key = element of a constant table containing the digest message
+				ld, ok := allArgs(call)[1].(*ssa.UnOp)
+				if !ok || ld.Op != token.MUL {
+					continue
+				}
+				ia, ok := ld.X.(*ssa.IndexAddr)
+				if !ok {
+					continue
+				}
+				sl, ok := ia.X.(*ssa.Slice)
+				if !ok {
+					continue
+				}
+				al, ok := sl.X.(*ssa.Alloc)
+				if !ok {
+					continue
+				}
+				hasDigest := false
+				for _, ref := range *al.Referrers() {
+					if ea, ok := ref.(*ssa.IndexAddr); ok {
+						for _, r2 := range *ea.Referrers() {
+							if st, ok := r2.(*ssa.Store); ok {
+								if c, ok := st.Val.(*ssa.Const); ok && c.Value != nil && c.Value.ExactString() == `"sha-384"` {
+									hasDigest = true
+								}
+							}
+						}
+					}
+				}
+				if !hasDigest {
+					continue
+				}
+				// innermost loop header containing the call
+				var header *ssa.BasicBlock
+				for _, h := range fn.Blocks {
+					if !h.Dominates(b) {
+						continue
+					}
+					back := false
+					for _, pb := range h.Preds {
+						if h.Dominates(pb) {
+							back = true
+						}
+					}
+					if back && (header == nil || header.Dominates(h)) {
+						header = h
+					}
+				}
+				n++
+				key := fmt.Sprintf("announce loop #%d in %s", n, p.FuncName(fn))
+				if header == nil {
+					r.table(p, rule, key, p.instrPos(call), false, "the table element is written outside a loop: undecided")
+					continue
+				}
+				okv, detail := true, "the write dominates every back edge"
+				for _, pb := range header.Preds {
+					if header.Dominates(pb) && !b.Dominates(pb) {
+						okv, detail = false, "a back edge from "+p.instrPos(pb.Instrs[len(pb.Instrs)-1])+" is not dominated by the write: an announcement can be skipped"
+					}
+				}
+				r.table(p, rule, key, p.instrPos(call), okv, detail)
+			}
+		}
 	}
 }
